@@ -17,6 +17,7 @@ LEVEL_NOTE = ("Bounds: chain length c<=2 quick / c<=3 thorough; 6 geometries qui
               "plasmid is rotation invariant by C02, the walk reads only overhangs and fragments by C03). Targets and vector "
               "backbones shorter than 2 nt are outside the domain (the elucidated cut pattern carries one context nucleotide). "
               "Longer chains follow the loop invariant of _generate_assembly but are not claimed. Trusted: z3, CPython, symx models.")
+LEVEL_NOTE_EXTRA = 'Also: record identifiers all equal / modules equal (labels, not inputs).'
 TECHNIQUE = "bounded symbolic execution of the real Python source (symx) with z3, end-to-end typing + assembly per enzyme geometry; closed-form product oracle; replay on the real stack"
 EXPLANATION = ("the formal plasmid decompositions are instantiated with symbolic letters; the real classes type them, extract "
                "the fragments and assemble; the product is compared with the documented closed form")
